@@ -61,7 +61,7 @@ pub fn run(ctx: &Ctx) -> i32 {
          category part present iff that category's map is non-empty, in the order vulnerabilities, optimisations, QA. non-trivial = map with >= 2 patterns or >= 2 files; distinct by map content",
     );
     let table = report::section_table();
-    let reps = ctx.tier.pick(500u64, 10_000u64);
+    let reps = ctx.tier.pick(500u64, 1_000_000u64);
     run_workload(ctx, &mut acc, "vulnerability-subsets", 16 * reps, |k, rng, acc| {
         let mask = k % 16;
         let m = gen_map(rng, "vulnerabilities", mask, if rng.chance(1, 10) { 30 } else { 4 });
@@ -99,7 +99,7 @@ pub fn run(ctx: &Ctx) -> i32 {
         }
     });
     // category parts through generate_report
-    let nfile = ctx.tier.pick(96u64, 1600u64);
+    let nfile = ctx.tier.pick(96u64, 24000u64);
     run_workload(ctx, &mut acc, "category-presence", nfile, |k, rng, acc| {
         let present = k % 8;
         let v = if present & 1 != 0 { gen_map(rng, "vulnerabilities", 1 + rng.below(15) as u64, 3) } else { vec![] };
